@@ -2,7 +2,10 @@
 
 Stage P: Properties/C17.v over the window clauses regenerated from the current
 source (translator sql_clause.py).  Stage C: the real sqlite-backed databases
-vs the Coq model (vm_compute).  Stage S: the plain-Python interval oracle."""
+(Basic / Gff / Genbank, the latter two loaded from generated GFF3 / GenBank text)
+vs the Coq model (vm_compute).  Stage S: plain-Python oracles (interval scan,
+grouping for count_distinct, records read directly from the GFF text whatever
+lines_per_block, positions denoted by a GenBank location)."""
 from __future__ import annotations
 
 import itertools
@@ -830,6 +833,25 @@ def run_oracle(c):
     return out
 
 
+PARTIAL = [
+    "sqlite3's evaluation of the WHERE clause (=, LIKE, NULL, IN) is re-modelled in Model/AnnotDb.v and compared, not verified",
+    "deepcopy / pickle / write+reload are the identity on the record list in the model (sqlite serialize/backup not modelled): compared only; "
+    "to_rich_dict/from_dict, update, union, subset have theorems",
+    "GFF: text -> rows (tab splitting, '#' comments, the ID=/Parent= regexes, the seqids= filter) is compared only; the theorems start "
+    "from parsed rows; independence of lines_per_block is proved for files in which no feature repeats a span verbatim "
+    "(gff_repeated_row_refuted shows the hypothesis is needed); real IDs literally of the form unknown-<k> and paths matching several "
+    "files (the counter restarts per file while seen_ids is shared) are outside the model and not generated",
+    "GenBank: text -> location expression (tokeniser, feature table parser, naming qualifiers) is compared only; theorems cover "
+    "segment / point / complement / join / complement(join) -> spans, strand, start, stop; order(), bond(), a^b, a.b are not generated",
+    "get_records_matching(on_alignment=False) and num_matches(on_alignment=...) on the two-table classes raise OperationalError in the "
+    "unchanged source (on_alignment is not among the arguments the property names): tolerated as 'not observed', an answer is compared when given",
+    "get_feature_children / get_feature_parent, describe, biotype_counts are not covered",
+    "union between a one-table self and a two-table other (result class switches) and update(seqids=...) are not exercised",
+    "spec-level query theorems assume start < stop for stored rows and windows; degenerate ones are characterised by overlap_total and "
+    "compared model-vs-implementation",
+]
+
+
 # ------------------------------------------------------------------ the check
 
 def classify(c, qi):
@@ -887,19 +909,21 @@ def run(tier: str, seed: int) -> int:
         "translator harness/translators/sql_clause.py: runs _matching_conditions with symbolic bounds and re-emits the SQL "
         "boolean text as Gallina (fail-closed grammar)",
         "sqlite3 evaluates the WHERE clause; its comparison/LIKE semantics are re-modelled in Model/AnnotDb.v, not verified",
+        "the GFF block-loop model (Model/AnnotDbGff.v) carries both the rule before and after commit 8412cc0a1; which one the "
+        "source under test follows is decided on every run from its behaviour on a 3-row split feature (GB_PROBE)",
     ])
     rep.assumptions += ["stored features have start < stop and query windows have start < stop for the spec-level theorems; "
                         "degenerate inputs are compared model-vs-implementation only"]
     proof_broken = bool(pr["problems"])
     model_ok = not proof_broken or (terr is None and "OverlapGen" not in " ".join(pr["problems"]))
 
-    ncases = 150 if tier == "quick" else 2500
+    ncases = 150 if tier == "quick" else 8000
     if proof_broken:
         ncases *= 4  # widened search
     cases = [lattice_case("basic"), lattice_case("gff"), lattice_case("gb")] + twotable_cases()
     cases += [random_case(rng) for _ in range(ncases)]
     rng_g = random.Random(seed * 7919 + 18)
-    gcases = [GB_PROBE] + gb_exhaustive_cases() + [gb_random_case(rng_g) for _ in range((60 if tier == "quick" else 1500) * (4 if proof_broken else 1))]
+    gcases = [GB_PROBE] + gb_exhaustive_cases() + [gb_random_case(rng_g) for _ in range((60 if tier == "quick" else 5000) * (4 if proof_broken else 1))]
     impl_all = core.run_impl_sharded("c17_impl.py", cases + gcases)
     impl, gimpl = impl_all[:len(cases)], impl_all[len(cases):]
     # which rule does the source follow for a name met again in a later block (see Model/AnnotDbGff.v)?
@@ -954,6 +978,7 @@ def run(tier: str, seed: int) -> int:
         model_impl_disagreements=ndis, spec_violations=nvio,
         translator_tie="ok" if terr is None else f"broken: {terr}",
         exhaustive=False,
+        partial=PARTIAL,
     )
     dis = [dict(key=classify(c, qi), case=dict(c, queries=[c["queries"][qi]]), observed_impl=jsonable(i_q), model_output=jsonable(m_q))
            for (c, qi, i_q, m_q) in rep.pending_disagreements[:5]] + g_dis[:5]
